@@ -5,7 +5,10 @@
   seeded/refactors/*.diff        independently written behaviour-preserving refactorings: the check must stay silent
 
 Each patch is applied to a scratch copy of the *current* tree (mktemp, removed afterwards); a patch that no longer applies
-is skipped and counted.  As with the mutants, the verdict on /repo never comes from here."""
+is skipped and counted.  seeded/EXPECT.json records, per entry, what the checker is expected to do with it today:
+"caught" / "silent" entries are enforced (a regression fails the self-test, exit 2); "open" entries are run and
+reported but not enforced -- they are the documented limits of the checker (DESIGN.md section 15).
+As with the mutants, the verdict on /repo never comes from here."""
 import glob, json, os, shutil, subprocess, sys, tempfile
 from concurrent.futures import ThreadPoolExecutor
 
@@ -45,6 +48,9 @@ def run_for(pid):
     with ThreadPoolExecutor(max_workers=16) as ex:
         res = list(ex.map(lambda j: _run(pid, j[2]), jobs))
     bad, skipped, n = [], 0, {"seed": 0, "refactoring": 0}
+    exp = json.load(open(os.path.join(VERIF, "seeded", "EXPECT.json")))
+    exp = dict(exp["seeds"], **exp["refactorings"])
+    open_ = []
     for (kind, name, _), (rc, info) in zip(jobs, res):
         if rc is None:
             skipped += 1
@@ -56,15 +62,18 @@ def run_for(pid):
         if not ok or kind == "seed":
             print("  corpus %-12s %-10s %s  %s" % (kind, name, "caught" if (ok and want) else ("silent" if ok else
                   ("MISSED" if want else "FALSE ALARM (exit %d)" % rc)), info))
-        if not ok:
+        if not ok and exp.get(name, "open") == "open":
+            open_.append((kind, name, rc, info))
+        elif not ok:
             bad.append((kind, name, rc, info))
-    print("selftest %s corpus: %d/%d seeded changes caught, %d/%d refactorings silent, %d skipped" %
-          (pid, n["seed"], len(seeds), n["refactoring"], len(refs), skipped))
+    print("selftest %s corpus: %d/%d seeded changes caught, %d/%d refactorings silent, %d skipped, %d open (not enforced)" %
+          (pid, n["seed"], len(seeds), n["refactoring"], len(refs), skipped, len(open_)))
     evp = os.path.join(os.environ.get("SA_EVIDENCE_DIR") or os.path.join(VERIF, "evidence"), "%s.json" % pid)
     try:
         ev = json.load(open(evp))
         ev["coverage"]["corpus"] = {"seeded_changes": len(seeds), "caught": n["seed"], "refactorings": len(refs),
-                                    "silent": n["refactoring"], "skipped": skipped, "failed": bad}
+                                    "silent": n["refactoring"], "skipped": skipped, "failed": bad,
+                                    "open_not_enforced": open_}
         json.dump(ev, open(evp, "w"), indent=1)
     except Exception:
         pass
